@@ -204,6 +204,10 @@ class Interp:
         if isinstance(cur, Lin) or isinstance(cur, (int, bool)):
             a = self.ev.as_lin(cur, s)
             b = self.ev.as_lin(val, s.value)
+            if a.is_const() and b.is_const() and isinstance(s.op, (ast.BitOr, ast.BitAnd, ast.BitXor, ast.LShift, ast.RShift)):
+                fn = {ast.BitOr: lambda x, y: x | y, ast.BitAnd: lambda x, y: x & y, ast.BitXor: lambda x, y: x ^ y, ast.LShift: lambda x, y: x << y, ast.RShift: lambda x, y: x >> y}[type(s.op)]
+                st.env[name] = Lin(fn(a.const, b.const))
+                return [(st, Outcome("fall"))]
             if isinstance(s.op, ast.Add):
                 st.env[name] = a + b
             elif isinstance(s.op, ast.Sub):
